@@ -114,6 +114,74 @@ def job(cfgs):
     return len(cfgs), oc, out, states
 
 
+# ------------------------------------------------------------------ non-initial states: after earlier requests
+
+PRIOR = {'success': ['valid'], 'rejected': ['exc2'], 'rejected@.5T': ['exc@.5T'], 'rejected@.9T': ['exc@.9T'],
+         'success@.5T': ['valid@.5T'], 'success-after-timeout': ['drop', 'valid'], 'fragments': ['frag2@.4T'],
+         'garbage-then-valid': ['garbage', 'valid']}
+
+
+def run_hist(cfg):
+    """cfg: transport, ka, T, R, prior (tuple of PRIOR names), k (timeouts before the exception), delay (fraction of T)"""
+    from ..proto import Session
+    T, R = cfg['T'], cfg['R']
+    s = Session(dict(transport=cfg['transport'], ka=cfg['ka'], T=T, R=R))
+    for name in cfg['prior']:
+        sc = PRIOR[name]
+        if cfg['transport'] == 'tcp' and name == 'garbage-then-valid':
+            sc = ['garbage']
+        s.request(sc)           # no drain: the next request follows at once, as ET.read_runtime_data() does
+    letter = 'exc2' if cfg['delay'] == 0 else f"exc@{cfg['delay']}T"
+    obs = s.request(['drop'] * cfg['k'] + [letter], settle=False)
+    vio = []
+    res = obs.result
+    want = wire.exception_reason(2)
+    if res[0] != 'exc' or res[1] != 'RequestRejectedException':
+        vio.append(('rejected-exception', f'{res[:2]}'))
+    elif res[2] != want:
+        vio.append(('reason-text', f'{res[2]!r}'))
+    if len(obs.txs) != cfg['k'] + 1:
+        vio.append(('no-retransmission', f'{len(obs.txs)} transmissions, exception answered #{cfg["k"] + 1}'))
+    elif obs.txs:
+        arrival = obs.txs[cfg['k']][0] + (D0 if cfg['delay'] == 0 else cfg['delay'] * T)
+        if abs(obs.t1 - arrival) > 1e-6:
+            vio.append(('immediate', f'completed {obs.t1 - arrival:.6f} after the exception frame arrived'))
+    return vio, res
+
+
+def hist_configs(tier):
+    import itertools
+    names = list(PRIOR)
+    for tr in ('udp', 'tcp'):
+        for ka in (False, True):
+            for R in ((0, 2) if tier == 'thorough' else (2,)):
+                for depth in (1, 2):
+                    for prior in itertools.product(names, repeat=depth):
+                        if tier != 'thorough' and depth == 2 and not (prior[0].startswith('rejected') or prior[1].startswith('rejected')):
+                            continue
+                        for k in ((0, 1) if R else (0,)):
+                            for delay in (0, .4, .8):
+                                yield dict(transport=tr, ka=ka, T=1, R=R, prior=prior, k=k, delay=delay)
+
+
+def job_hist(cfgs):
+    out = {}
+    n = 0
+    for cfg in cfgs:
+        vio, res = run_hist(cfg)
+        n += 1
+        for clause, cause in vio:
+            key = f"{clause}/{cfg['transport']}/ka={int(cfg['ka'])}/after:{'+'.join(sorted(set(cfg['prior'])))}"
+            out.setdefault(key, []).append(dict(key=key, clause=clause, replay=dict(part='H', cfg=cfg),
+                                                detail=dict(cause=cause, prior=list(cfg['prior']), k=cfg['k'], delay=cfg['delay'])))
+    res = []
+    for key, lst in out.items():
+        lst.sort(key=lambda v: len(v['replay']['cfg']['prior']))
+        lst[0]['n'] = len(lst)
+        res.append(lst[0])
+    return n, res
+
+
 # ------------------------------------------------------------------ callers that depend on the exact text
 
 def caller_part(rep):
@@ -166,6 +234,17 @@ def caller_part(rep):
 
 def run(tier, seed, rep):
     n_c = caller_part(rep)
+    hc = list(hist_configs(tier))
+    n_h = 0
+    best = {}
+    for n, res in pmap(job_hist, [hc[i::32] for i in range(32)]):
+        n_h += n
+        for v in res:
+            k = v['key']
+            if k not in best or len(v['replay']['cfg']['prior']) < len(best[k]['replay']['cfg']['prior']):
+                v['n'] = v.get('n', 1) + (best[k]['n'] if k in best else 0)
+                best[k] = v
+    rep.add_many(list(best.values()))
     n_e, reasons, vio_e = validator_part()
     rep.add_many(vio_e)
     grid = [(1, 0), (1, 1), (1, 2), (1, 3), (2, 1), (0.5, 2)] if tier == 'thorough' else [(1, 0), (1, 2)]
@@ -191,7 +270,7 @@ def run(tier, seed, rep):
             ocs[kk] = ocs.get(kk, 0) + v
         rep.add_many(out)
     cov = dict(states=len(states), transitions=total, executions=total, traces_validated_against_impl=total,
-               validator_evaluations=n_e, caller_cases=n_c, distinct_validator_outcomes=reasons,
+               validator_evaluations=n_e, caller_cases=n_c, history_cases=n_h, distinct_validator_outcomes=reasons,
                distinct_outcome_classes=len(ocs), exhaustive=True,
                bound=f'codes {"0..255" if tier == "thorough" else "0..12,0x55,0x80,0x83,0xFF"} x read/write/write-multi x '
                      f'UDP-RTU/TCP x keep-alive x (T,R) grid {grid} x exception answering transmission k+1 for every '
@@ -209,6 +288,11 @@ def replay(r):
         rp = Report('C08')
         caller_part(rp)
         return dict(violations=sorted(k for k in rp.by_key if r['block'] in k or r['block'] == 'setting'))
+    if r['part'] == 'H':
+        cfg = r['cfg']
+        cfg['prior'] = tuple(cfg['prior'])
+        v, res = run_hist(cfg)
+        return dict(result=res[:3], violations=v)
     if r['part'] == 'E':
         p = make_protocol('tcp' if r['framing'] == 'tcp' else 'udp', 1, 0, False)
         cmd = command(p, r['kind'])
